@@ -34,9 +34,25 @@ func (d docGen) orderObject(depth int) map[string]interface{} {
 	return m
 }
 
+// seenContainers lets a document store one and the same container under several slots (a
+// document that "was built" by sharing values instead of copying them).
+var seenContainers []interface{}
+
 func (d docGen) orderValue(depth int) interface{} {
+	v := d.orderValue1(depth)
+	switch v.(type) {
+	case map[string]interface{}, []interface{}:
+		seenContainers = append(seenContainers, v)
+	}
+	return v
+}
+
+func (d docGen) orderValue1(depth int) interface{} {
 	if depth <= 0 {
 		return d.leaf()
+	}
+	if len(seenContainers) > 0 && chance(12) {
+		return seenContainers[rn(len(seenContainers))]
 	}
 	switch rn(6) {
 	case 0, 1:
@@ -212,6 +228,7 @@ func runC07() *RunResult {
 	ref := &Recorder{}
 	for c := 0; c < ncase; c++ {
 		k := &kase{}
+		seenContainers = seenContainers[:0]
 		if chance(70) {
 			k.doc = dg.orderObject(1 + rn(3))
 		} else {
@@ -260,10 +277,14 @@ func runC07() *RunResult {
 			}
 			pol := 1 + rn(4) // never plain ascending: desc, rotate, random, mixed
 			var d interface{}
-			if chance(50) {
+			switch rn(3) {
+			case 0:
 				d = deepCopy(k.doc)
-			} else {
+			case 1:
 				d = deepCopyRev(k.doc)
+			default:
+				// same value, built with shared containers where the original shares them
+				d = deepCopyShared(k.doc, map[uintptr]interface{}{})
 			}
 			useRetrieve := chance(25)
 			o := &Op{Kind: opCustom, Path: k.p}
